@@ -106,6 +106,100 @@ end Gql
 namespace Gql
 open Gql.Strconv
 
+/- ---------- the representation invariant `wfB` ---------- -/
+
+mutual
+  theorem safe_wf : (v : GoVal) → safeB v = true → wfB v = true
+    | .slice e xs, h => by
+      simp only [safeB] at h
+      simpa [wfB] using safeItems_wf _ xs h
+    | .map e kvs, h => by
+      simp only [safeB, Bool.and_eq_true, decide_eq_true_eq] at h
+      obtain ⟨he, hk⟩ := h
+      subst he
+      simpa [wfB] using safeFields_wf kvs hk
+    | .nil, _ => rfl
+    | .bool _, _ => rfl
+    | .int _ _, _ => rfl
+    | .uint _ _, _ => rfl
+    | .float _ _, _ => rfl
+    | .jsonNumber _, _ => rfl
+    | .str _, _ => rfl
+  theorem safeItems_wf (b : Bool) : (xs : GoVals) → safeItemsB b xs = true → wfItemsB b xs = true
+    | .nil, _ => rfl
+    | .cons v r, h => by
+      simp only [safeItemsB, Bool.and_eq_true] at h
+      simp only [wfItemsB, Bool.and_eq_true]
+      exact ⟨⟨h.1.1, safe_wf v h.1.2⟩, safeItems_wf b r h.2⟩
+  theorem safeFields_wf : (kvs : GoFields) → safeFieldsB kvs = true → wfFieldsB true kvs = true
+    | .nil, _ => rfl
+    | .cons _ v r, h => by
+      simp only [safeFieldsB, Bool.and_eq_true] at h
+      simp only [wfFieldsB, Bool.and_eq_true, Bool.true_or, true_and]
+      exact ⟨safe_wf v h.1, safeFields_wf r h.2⟩
+end
+
+theorem wfFields_lookup (b : Bool) : ∀ (kvs : GoFields) (k : Bytes) (x : GoVal),
+    wfFieldsB b kvs = true → kvs.lookup k = some x → wfB x = true
+  | .nil, _, _, _, h => by simp [GoFields.lookup] at h
+  | .cons a w r, k, x, hs, h => by
+    simp only [wfFieldsB, Bool.and_eq_true] at hs
+    simp only [GoFields.lookup] at h
+    split at h
+    · cases h; exact hs.1.2
+    · exact wfFields_lookup b r k x hs.2 h
+
+/-- the list loop calls `f` on a null item only when the element type is nullable -/
+theorem listLoop_nil_nullable {b1 b2 : Bool} {x : GoVal} (h1 : (b1 || !x.isNil) = true)
+    (hcond : ¬ (b1 && b2 && x.isNil) = true) : x = .nil → b2 = false := by
+  intro hx
+  subst hx
+  cases b1 <;> cases b2 <;> simp_all [GoVal.isNil]
+
+theorem jsonNumberPre_wf {typ : GType} {val rv : GoVal} (hs : wfB val = true)
+    (h : jsonNumberPre typ val = .ok rv) : wfB rv = true := by
+  unfold jsonNumberPre at h
+  cases val with
+  | jsonNumber t =>
+    simp only [] at h
+    split at h
+    · split at h <;> first | (cases h; rfl) | simp at h
+    · split at h
+      · split at h <;> first | (cases h; rfl) | simp at h
+      · cases h; rfl
+  | _ => simp only [] at h; cases h; exact hs
+
+theorem jsonNumberPre_ne_nil {typ : GType} {val rv : GoVal} (hn : val ≠ .nil)
+    (h : jsonNumberPre typ val = .ok rv) : rv ≠ .nil := by
+  unfold jsonNumberPre at h
+  cases val with
+  | jsonNumber t =>
+    simp only [] at h
+    split at h
+    · split at h <;> first | (cases h; simp) | simp at h
+    · split at h
+      · split at h <;> first | (cases h; simp) | simp at h
+      · cases h; simp
+  | nil => exact absurd rfl hn
+  | _ => simp only [] at h; cases h; exact hn
+
+theorem suppliedValue_wf {vars : VarMap} {v : VarDef} {x : GoVal}
+    (hvars : wfFieldsB true vars = true)
+    (h : suppliedValue vars v = .ok (some x)) : wfB x = true := by
+  unfold suppliedValue at h
+  cases hl : vars.lookup v.var with
+  | some y => simp only [hl] at h; cases h; exact wfFields_lookup true vars v.var _ hvars hl
+  | none =>
+    simp only [hl] at h
+    cases hdv : v.default with
+    | none => simp only [hdv] at h; split at h <;> simp at h
+    | some dv =>
+      simp only [hdv] at h
+      cases hvv : valueValueConst dv with
+      | ok y => simp only [hvv] at h; cases h; exact safe_wf _ (valueValueConst_safe dv _ hvv)
+      | err e => simp [hvv] at h
+      | diverge => simp [hvv] at h
+
 /-- the type's named type is a scalar or an enum (any list depth around it) -/
 def LeafTyped (s : Schema) (t : GType) : Prop :=
   ∃ d, s.type? t.name = some d ∧ (d.kind = .scalar ∨ d.kind = .enum)
@@ -116,15 +210,17 @@ def ConfTriple (s : Schema) (t : GType) (val : GoVal) : Res (GoVal × GoVal) →
   | _ => True
 
 theorem listLoop_conforms (s : Schema) (e : GType) (f : Path → GoVal → Res (GoVal × GoVal)) (path : Path) (b1 b2 : Bool)
-    (hf : ∀ p x, ConfTriple s e x (f p x)) :
-    ∀ (xs xs' : GoVals) (i : Nat), listLoop f path b1 b2 i xs = .ok xs' →
+    (hf : ∀ p x, wfB x = true → (x = .nil → b2 = false) → ConfTriple s e x (f p x)) :
+    ∀ (xs xs' : GoVals) (i : Nat), wfItemsB b1 xs = true → listLoop f path b1 b2 i xs = .ok xs' →
       allConform .legacy s e xs' = true ∧ allConform .legacy s e xs = true
-  | .nil, xs', i, h => by simp only [listLoop] at h; cases h; simp [allConform]
-  | .cons x rest, xs', i, h => by
+  | .nil, xs', i, _, h => by simp only [listLoop] at h; cases h; simp [allConform]
+  | .cons x rest, xs', i, hw, h => by
+    simp only [wfItemsB, Bool.and_eq_true] at hw
     simp only [listLoop] at h
     split at h
     · simp at h
-    · have hx := hf (path ++ [.idx i]) x
+    · rename_i hcond
+      have hx := hf (path ++ [.idx i]) x hw.1.2 (listLoop_nil_nullable hw.1.1 hcond)
       cases hfx : f (path ++ [.idx i]) x with
       | ok pr =>
         obtain ⟨ret, upd⟩ := pr
@@ -133,7 +229,7 @@ theorem listLoop_conforms (s : Schema) (e : GType) (f : Path → GoVal → Res (
         cases hl : listLoop f path b1 b2 (i + 1) rest with
         | ok rest' =>
           simp only [hl] at h; cases h
-          obtain ⟨a, b⟩ := listLoop_conforms s e f path b1 b2 hf rest rest' (i + 1) hl
+          obtain ⟨a, b⟩ := listLoop_conforms s e f path b1 b2 hf rest rest' (i + 1) hw.2 hl
           have hst : conformsWith .legacy s e (storeElem ret upd) = true := by
             unfold storeElem; split
             · exact hx.2.1
@@ -146,8 +242,9 @@ theorem listLoop_conforms (s : Schema) (e : GType) (f : Path → GoVal → Res (
       | panic m => simp [hfx] at h
       | outOfFuel => simp [hfx] at h
 
+/-- the list branch on a value that is neither null nor a slice: the single-value-to-list coercion -/
 theorem vvt_list_nonslice (s : Schema) (fuel : Nat) (path : Path) (e : GType) (nn : Bool) (p : Pos) (val : GoVal)
-    (h : ∀ t xs, val ≠ .slice t xs) :
+    (hn : val ≠ .nil) (h : ∀ t xs, val ≠ .slice t xs) :
     validateVarType s (fuel + 1) path (.list e nn p) val =
       (match val.type? with
        | none => .panic typeOnZeroMsg
@@ -158,36 +255,48 @@ theorem vvt_list_nonslice (s : Schema) (fuel : Nat) (path : Path) (e : GType) (n
          | .err m p a => .err m p a
          | .panic m => .panic m
          | .outOfFuel => .outOfFuel) := by
-  cases val <;> first | exact absurd rfl (h _ _) | rfl
+  cases val <;> first | exact absurd rfl hn | exact absurd rfl (h _ _) | rfl
+
+/-- since the repair of R14a a null where a list is expected is returned as it is -/
+theorem vvt_list_nil (s : Schema) (fuel : Nat) (path : Path) (e : GType) (nn : Bool) (p : Pos) :
+    validateVarType s (fuel + 1) path (.list e nn p) .nil = .ok (.nil, .nil) := by
+  rfl
 
 theorem validateVarType_conforms (s : Schema) (hplain : EnumNamesPlain s) :
     ∀ (fuel : Nat) (path : Path) (typ : GType) (val : GoVal),
-      LeafTyped s typ → ConfTriple s typ val (validateVarType s fuel path typ val)
-  | 0, _, _, _, _ => by simp [validateVarType, ConfTriple]
-  | fuel + 1, path, typ, val, ht => by
+      LeafTyped s typ → wfB val = true → (val = .nil → typ.nonNull = false) →
+      ConfTriple s typ val (validateVarType s fuel path typ val)
+  | 0, _, _, _, _, _, _ => by simp [validateVarType, ConfTriple]
+  | fuel + 1, path, typ, val, ht, hw, hnn => by
     have ih := validateVarType_conforms s hplain fuel
     cases typ with
     | list e nn p =>
       have hte : LeafTyped s e := by simpa [LeafTyped, GType.name] using ht
+      by_cases hvn : val = .nil
+      · subst hvn
+        have := hnn rfl
+        simp only [GType.nonNull] at this
+        subst this
+        rw [vvt_list_nil]
+        simp [ConfTriple, CL, conformsWith, GType.nonNull]
       by_cases hsl : ∃ t xs, val = GoVal.slice t xs
       · obtain ⟨t, xs, rfl⟩ := hsl
-        simp only [validateVarType, legacyNullIntoListPanics, Bool.not_true, Bool.false_and, Bool.false_eq_true, if_false]
+        simp only [validateVarType, GoVal.isNil, Bool.and_false, Bool.false_eq_true, if_false]
+        have hxs : wfItemsB (decide (t = .iface)) xs = true := by simpa [wfB] using hw
         cases hr : listLoop (fun p x => validateVarType s fuel p e x) path (decide (t = .iface)) e.nonNull 0 xs with
         | ok xs' =>
-          obtain ⟨a, b⟩ := listLoop_conforms s e _ path _ _ (fun p x => ih p e x hte) xs xs' 0 hr
+          obtain ⟨a, b⟩ := listLoop_conforms s e _ path _ _ (fun p x h1 h2 => ih p e x hte h1 h2) xs xs' 0 hxs hr
           simp only [ConfTriple, CL, conformsWith, a, b, true_and]
           intro h; exact absurd rfl (h t xs)
         | err m p a => simp [ConfTriple]
         | panic m => simp [ConfTriple]
         | outOfFuel => simp [ConfTriple]
       · have hns : ∀ t xs, val ≠ GoVal.slice t xs := fun t xs h => hsl ⟨t, xs, h⟩
-        rw [vvt_list_nonslice s fuel path e nn p val hns]
+        rw [vvt_list_nonslice s fuel path e nn p val hvn hns]
         cases hty : val.type? with
         | none => simp [ConfTriple]
         | some t =>
-          have hvn : val ≠ .nil := by
-            intro h; subst h; simp [GoVal.type?] at hty
-          have hg := ih (path ++ [.idx 0]) e val hte
+          have hg := ih (path ++ [.idx 0]) e val hte hw (fun h => absurd h hvn)
           revert hg
           simp only []
           cases validateVarType s fuel (path ++ [.idx 0]) e val with
@@ -221,7 +330,7 @@ theorem validateVarType_conforms (s : Schema) (hplain : EnumNamesPlain s) :
         have : val = .nil := (GoVal.isNil_iff val).mp hnil.2
         subst this
         simp [conformsWith, GType.nonNull, hnil.1]
-      · simp only [hnil, if_false]
+      · simp only [hnil]
         cases hty : val.type? with
         | none =>
           rcases hk with hk | hk <;> simp [hk, ConfTriple]
@@ -318,7 +427,7 @@ theorem jsonNumberPre_conforms_back (s : Schema) (typ : GType) (x rv : GoVal)
 
 /-- what one successful `coerceSupplied` stores, and what it implies about the supplied value -/
 theorem coerceSupplied_conforms (s : Schema) (hplain : EnumNamesPlain s) (op : OperationDef) (v : VarDef)
-    (acc c : GoFields) (x : GoVal) (ht : LeafTyped s v.type)
+    (acc c : GoFields) (x : GoVal) (ht : LeafTyped s v.type) (hwf : wfB x = true)
     (h : coerceSupplied s op v acc x = .ok c) :
     (∃ y, c = acc.set v.var y ∧ CL s v.type y) ∧ CL s v.type x := by
   unfold coerceSupplied at h
@@ -333,12 +442,14 @@ theorem coerceSupplied_conforms (s : Schema) (hplain : EnumNamesPlain s) (op : O
       have : conformsWith .legacy s v.type .nil = true := by
         cases hv : v.type <;> simp_all [conformsWith, GType.nonNull]
       exact ⟨⟨.nil, rfl, this⟩, this⟩
-  · simp only [hn, if_false] at h
+  · simp only [hn] at h
     cases hj : jsonNumberPre v.type x with
     | error m => simp [hj] at h
     | ok rv =>
       simp only [hj] at h
+      have hrv : rv ≠ .nil := jsonNumberPre_ne_nil (fun e => hn ((GoVal.isNil_iff x).mpr e)) hj
       have hg := validateVarType_conforms s hplain (fuelFor s op rv) (varPath v) v.type rv ht
+        (jsonNumberPre_wf hwf hj) (fun e => absurd e hrv)
       revert hg h
       cases validateVarType s (fuelFor s op rv) (varPath v) v.type rv with
       | ok pr =>
